@@ -45,7 +45,7 @@ RECORDED = [dict(h, tiers=(Q if h["name"] == "c03_p_final_01_zz" else T), role="
             for h in _C3["harnesses"] if h["name"] in ("c03_p_final_01_zz", "c03_p_skip_01_zz", "c03_p_sfallback_01_zz")]
 SPEC = {
     "property": "C04",
-    "level_text": "Bounded symbolic verification of the real vote-admission filter: for every admissible set of votes the pool can already hold from a validator (notar A|B, notar-fallback for any subset of {A,B}, skip, skip-fallback, final) and every new vote of each of the five kinds, the solver shows that check_slashable_offence + should_ignore_vote report a slashable offence exactly for the conflicting pairs of the property statement (under an applicable name, for the right validator and slot, in either arrival order because the relation is checked for all held/new combinations), refuse exact and equivalent repeats as duplicates, and admit everything else - in particular every combination an honest validator can cast; votes of another validator never matter. A second family shows that an admitted vote is counted once, in exactly its class.",
+    "level_text": "Bounded symbolic verification of the real vote-admission filter: for every admissible set of votes the pool can already hold from a validator (notar A|B, notar-fallback for any subset of {A,B}, skip, skip-fallback, final) and every new vote of each of the five kinds, the solver shows that check_slashable_offence + should_ignore_vote report a slashable offence exactly for the conflicting pairs of the property statement (under an applicable name, for the right validator and slot, in either arrival order because the relation is checked for all held/new combinations), refuse exact and equivalent repeats as duplicates, and admit everything else - in particular every combination an honest validator can cast; votes of another validator never matter. A second family shows that an admitted vote is counted once, in exactly its class. Third family (C03's step harnesses, re-run here): an admitted vote is on record afterwards - the record from which later duplicates and conflicts are decided - also when the certificate of its class already exists. Fourth family (c04_gate_*): the same verdicts through the real PoolImpl::add_vote (slot window, slashable check before the duplicate filter, hand-over exactly for admitted votes with the voter's stake).",
     "level_note": "Bounds: 2 validators, 2 competing block hashes, one slot, one new vote against an arbitrary admissible held set (a one-step argument: the held set is exactly what earlier admitted votes can have stored). BLS signing is stubbed to an opaque token (signatures are validated before the pool, C09); std BTreeMap in slot_state.rs replaced by a bounded array map under Kani. The slot-window bounds of PoolImpl::add_vote (async, tokio channel) are outside. Trusts Kani, CBMC, CaDiCaL.",
     # registered harnesses need the slot-state overlay only; the pool-level harnesses (kani_c04_pool.rs, not registered)
     # are built with "overlays": PC.OVERLAYS + [...c04_pool...], "redirects": PC.REDIRECTS (harness/pool_common.py)
